@@ -13,6 +13,16 @@ public API (keys.sign / keys.verify / Signature.parse_bytes / encoding.der_encod
   signrand <d> <msghex> <ht> <form>  keys.sign(.., use_rfc6979=False) twice (the non-default random-nonce path)
       -> "<r> <s> <der hex> <k>;<r> <s> <der hex> <k>"   (no model answer: judged by the independent signer only)
 
+Argument forms — every digest / signature argument is a form letter and a hex field:
+  b = a bytes object holding the field's bytes, h = the field as lower-case hex text, U = as upper-case hex text,
+  t = a str whose CHARACTERS are the field's bytes (mixed case, white space, text that is not hex at all).
+  Private key forms of sign: K Key(hex) / H HDKey(hex) / S hex str / u upper-case hex str / B the 32 raw bytes /
+  k Key(bytes) / y HDKey(bytes).  Public key forms of verify: K Key(bytes) object / L Key(.., strict=False) / B bytes /
+  X lower hex text / Y upper hex text / Z text whose characters are the field.
+  parsef <how> <form> <sigfield>   how = b parse_bytes / x parse_hex / a parse  -> as parse
+  Every Signature object that is reported is also checked for self-consistency of bytes() / as_bytes() / hex() /
+  as_hex() / as_der_encoded(as_hex) / str() / bytes(obj) / len(obj) (flags RAWFORM HEXFORM DERFORM appended).
+
 Sessions — many calls in THIS process / on ONE object (module-level state and object attributes persist):
   signseq <mode> <d:msghex:k|-:ht:form> ...      every step is one keys.sign call, in order; mode r = the same
       Key / HDKey object is reused for all steps with the same key and form, f = a fresh one per step
@@ -20,12 +30,16 @@ Sessions — many calls in THIS process / on ONE object (module-level state and 
   vseq <mode> <src> <step> ...                   one Signature object, then one verify call per step on it
       src  = S:d:msghex:k|-:ht:form   keys.sign(...)            C:... Signature.create(...)
              P:<how>:<sighex>:<keyarg|->    how = b parse_bytes / x parse_hex / a parse(bytes) / A parse(str)
-             V:<r>:<s>:<dghex|*>:<keyarg|-> Signature(r, s, txid=, public_key=)
+             V:<r>:<s>:<dghex|*>:<keyarg|-> Signature(r, s, txid=, public_key=); the digest is bytes, or text when a
+                                            form letter h / U / t stands in front of the field
+             P how also: u parse_hex(upper text) / w parse(upper text) / T parse_hex(text) / t parse(text)
              N:<b|h>:<sighex>               no object: every step hands the encoded signature to keys.verify
                                             (a step may name its own signature in a 4th field ":<sighex>")
-      step = <entry><dgform>:<dghex|*>:<keyarg|*>   entry F keys.verify(txid, obj, key) / M obj.verify(txid, key);
-             dgform b / h / U; '*' = the argument is omitted
-      keyarg = K<sec hex> Key(bytes) / H HDKey(bytes) / B bytes / X hex text / Y upper-case hex text / T (x, y) tuple /
+      step = <entry><dgform>:<dghex|*>:<keyarg|*>   entry F keys.verify(txid, obj, key) / M obj.verify(txid, key) /
+             A obj.txid = ..; obj.public_key = ..; obj.verify()  (the setters);
+             dgform b / h / U / t; '*' = the argument is omitted
+      keyarg = K<sec hex> Key(bytes) / H HDKey(bytes) / B bytes / X hex text / Y upper-case hex text /
+               Z text whose characters are the field / T (x, y) tuple /
                V<decimal d> private Key / W<decimal d> private HDKey;  mode r reuses key objects between steps
       -> "ERR" when the object cannot be built, else the verdicts 1 | 0 | ERR joined by ','
 """
@@ -39,22 +53,70 @@ from bitcoinlib.encoding import der_encode_sig
 from bitcoinlib.config.secp256k1 import secp256k1_n
 
 
+def parg(form, field):
+    """the argument as the caller hands it over"""
+    b = unhx(field)
+    if form == 'b':
+        return b
+    if form == 'h':
+        return b.hex()
+    if form == 'U':
+        return b.hex().upper()
+    if form == 't':
+        return b.decode('latin-1')
+    raise ValueError(form)
+
+
+def parg_tok(tok):
+    return parg(tok[0], tok[1:]) if tok[:1] in ('h', 'U', 't') else parg('b', tok)
+
+
 def mkpriv(d, form):
     h = '%064x' % d
     if form == 'K':
         return Key(h)
     if form == 'H':
         return HDKey(h)
+    if form == 'u':
+        return h.upper()
+    if form == 'B':
+        return bytes.fromhex(h)
+    if form == 'k':
+        return Key(bytes.fromhex(h))
+    if form == 'y':
+        return HDKey(bytes.fromhex(h))
     return h
 
 
-def one_sign(d, msg, k, ht, form):
-    txid = msg if form[0] == 'b' else msg.hex().upper() if form[0] == 'U' else msg.hex()
-    sg = sign(txid, mkpriv(d, form[1]), k=k, hash_type=ht)
+def obj_flags(sg):
+    """self-consistency of the output forms of a Signature object"""
+    try:
+        return _obj_flags(sg)
+    except Exception as e:
+        return ' OUTFORM-%s' % type(e).__name__
+
+
+def _obj_flags(sg):
+    out = ''
+    raw = sg.r.to_bytes(32, 'big') + sg.s.to_bytes(32, 'big')
+    if sg.bytes() != raw or sg.as_bytes() != raw:
+        out += ' RAWFORM'
+    if sg.hex() != raw.hex() or sg.as_hex() != raw.hex():
+        out += ' HEXFORM'
+    der = sg.as_der_encoded()
+    nht = sg.as_der_encoded(include_hash_type=False)
+    if sg.as_der_encoded(as_hex=True) != der.hex() or str(sg) != der.hex() or bytes(sg) != der or len(sg) != len(der) or \
+            sg.as_der_encoded(as_hex=True, include_hash_type=False) != nht.hex() or nht != der_encode_sig(sg.r, sg.s) or \
+            der[-1:] != bytes([sg.hash_type]):
+        out += ' DERFORM'
+    return out
+
+
+def one_sign(d, msg_field, k, ht, form):
+    sg = sign(parg(form[0], msg_field), mkpriv(d, form[1]), k=k, hash_type=ht)
     out = '%d %d %s' % (sg.r, sg.s, hx(sg.as_der_encoded()))
     # the object must be self-consistent: raw form, DER without hash type, own verification
-    if sg.bytes() != sg.r.to_bytes(32, 'big') + sg.s.to_bytes(32, 'big'):
-        out += ' RAWFORM'
+    out += obj_flags(sg)
     if sg.as_der_encoded(include_hash_type=False) + bytes([ht]) != sg.as_der_encoded():
         out += ' DERFORM'
     if k and sg.k != k:
@@ -64,10 +126,10 @@ def one_sign(d, msg, k, ht, form):
 
 def sign_step(tok, pool):
     d, msg, k, ht, form = tok.split(':')
-    d, msg, k, ht = int(d), unhx(msg), (None if k == '-' else int(k)), int(ht)
-    txid = msg if form[0] == 'b' else msg.hex()
+    d, k, ht = int(d), (None if k == '-' else int(k)), int(ht)
     try:
-        if pool is not None and form[1] != 'S':
+        txid = parg(form[0], msg)
+        if pool is not None and form[1] in 'KHky':
             if (d, form[1]) not in pool:
                 pool[(d, form[1])] = mkpriv(d, form[1])
             key = pool[(d, form[1])]
@@ -75,8 +137,7 @@ def sign_step(tok, pool):
             key = mkpriv(d, form[1])
         sg = sign(txid, key, k=k, hash_type=ht)
         out = '%d %d %s' % (sg.r, sg.s, hx(sg.as_der_encoded()))
-        if sg.bytes() != sg.r.to_bytes(32, 'big') + sg.s.to_bytes(32, 'big'):
-            out += ' RAWFORM'
+        out += obj_flags(sg)
         if k and sg.k != k:
             out += ' BADK'
         return out, sg
@@ -106,6 +167,8 @@ def key_arg(tok, pool):
             v = body
         elif f == 'Y':
             v = body.upper()
+        elif f == 'Z':
+            v = bytes.fromhex(body).decode('latin-1')
         elif f == 'T':
             v = tuple(Key(bytes.fromhex(body)).public_point())
         elif f == 'V':
@@ -124,8 +187,7 @@ def key_arg(tok, pool):
 def dg_arg(form, tok):
     if tok == '*':
         return None
-    b = unhx(tok)
-    return b if form == 'b' else b.hex().upper() if form == 'U' else b.hex()
+    return parg(form, tok)
 
 
 def verdict(r):
@@ -140,19 +202,19 @@ def vseq(t):
     try:
         if kind in 'SC':
             d, msg, k, ht, form = src[1:]
-            d, msg, k, ht = int(d), unhx(msg), (None if k == '-' else int(k)), int(ht)
-            txid = msg if form[0] == 'b' else msg.hex()
+            d, k, ht = int(d), (None if k == '-' else int(k)), int(ht)
             fn = sign if kind == 'S' else Signature.create
-            obj = fn(txid, mkpriv(d, form[1]), k=k, hash_type=ht)
+            obj = fn(parg(form[0], msg), mkpriv(d, form[1]), k=k, hash_type=ht)
         elif kind == 'P':
-            how, sg, ka = src[1], unhx(src[2]), key_arg(src[3], pool)
-            obj = {'b': lambda: Signature.parse_bytes(sg, ka), 'x': lambda: Signature.parse_hex(sg.hex(), ka),
-                   'a': lambda: Signature.parse(sg, ka), 'A': lambda: Signature.parse(sg.hex(), ka)}[how]()
+            how, ka = src[1], key_arg(src[3], pool)
+            sform = {'b': 'b', 'a': 'b', 'x': 'h', 'A': 'h', 'u': 'U', 'w': 'U', 'T': 't', 't': 't'}[how]
+            sg = parg(sform, src[2])
+            obj = (Signature.parse_bytes if how == 'b' else Signature.parse_hex if how in 'xuT' else Signature.parse)(sg, ka)
         elif kind == 'V':
-            obj = Signature(int(src[1]), int(src[2]), txid=(None if src[3] == '*' else unhx(src[3])),
+            obj = Signature(int(src[1]), int(src[2]), txid=(None if src[3] == '*' else parg_tok(src[3])),
                             public_key=key_arg(src[4], pool))
         elif kind == 'N':
-            sg = unhx(src[2]) if src[1] == 'b' else unhx(src[2]).hex()
+            sg = parg(src[1], src[2])
         else:
             return 'BADREQ'
     except Exception:
@@ -167,10 +229,16 @@ def vseq(t):
             txid = dg_arg(head[1], dg)
             if kind == 'N':
                 own = st.split(':')[3:]
-                sg_i = sg if not own else unhx(own[0]) if src[1] == 'b' else unhx(own[0]).hex()
+                sg_i = sg if not own else parg(src[1], own[0])
                 r = verify(txid, sg_i, key)
             elif head[0] == 'F':
                 r = verify(txid, obj) if key is None else verify(txid, obj, key)
+            elif head[0] == 'A':
+                if txid is not None:
+                    obj.txid = txid
+                if key is not None:
+                    obj.public_key = key
+                r = obj.verify()
             else:
                 r = obj.verify(txid, key)
             out.append(verdict(r))
@@ -189,38 +257,45 @@ def dispatch(t):
     if c == 'vseq':
         return vseq(t)
     if c == 'signrand':
-        d, msg, ht, form = int(t[1]), unhx(t[2]), int(t[3]), t[4]
+        d, ht, form = int(t[1]), int(t[3]), t[4]
         outs = []
         try:
             for _ in range(2):
-                sg = sign(msg if form[0] == 'b' else msg.hex(), mkpriv(d, form[1]), use_rfc6979=False, hash_type=ht)
+                sg = sign(parg(form[0], t[2]), mkpriv(d, form[1]), use_rfc6979=False, hash_type=ht)
                 outs.append('%d %d %s %d' % (sg.r, sg.s, hx(sg.as_der_encoded()), sg.k))
         except Exception:
             return 'ERR'
         return ';'.join(outs)
     if c == 'sign':
-        d, msg, k, ht, form = int(t[1]), unhx(t[2]), (None if t[3] == '-' else int(t[3])), int(t[4]), t[5]
+        d, k, ht, form = int(t[1]), (None if t[3] == '-' else int(t[3])), int(t[4]), t[5]
         try:
-            a = one_sign(d, msg, k, ht, form)
+            a = one_sign(d, t[2], k, ht, form)
         except Exception:
             return 'ERR'
         try:
-            b = one_sign(d, msg, k, ht, form)
+            b = one_sign(d, t[2], k, ht, form)
         except Exception:
             return 'NONDET'
         return a if a == b else 'NONDET'
     if c == 'verify':
-        dg, sg, pk, form = unhx(t[1]), unhx(t[2]), unhx(t[3]), t[4]
+        pk, form = unhx(t[3]), t[4]
         try:
-            key = Key(pk) if form[2] == 'K' else Key(pk, strict=False) if form[2] == 'L' else pk.hex() if form[2] == 'X' else pk
-            r = verify(dg if form[0] == 'b' else dg.hex(), sg if form[1] == 'b' else sg.hex(), key)
+            key = Key(pk) if form[2] == 'K' else Key(pk, strict=False) if form[2] == 'L' else pk.hex() if form[2] == 'X' else \
+                pk.hex().upper() if form[2] == 'Y' else pk.decode('latin-1') if form[2] == 'Z' else pk
+            r = verify(parg(form[0], t[1]), parg(form[1], t[2]), key)
         except Exception:
             return 'ERR'
         return '1' if r is True else '0' if r is False else 'ODD %r' % (r,)
-    if c == 'parse':
+    if c in ('parse', 'parsef'):
         try:
-            s = Signature.parse_bytes(unhx(t[1]))
-            return '%d %d %d %s' % (s.r, s.s, s.hash_type, hx(s.as_der_encoded()))
+            if c == 'parse':
+                s = Signature.parse_bytes(unhx(t[1]))
+            else:
+                a = parg(t[2], t[3])
+                s = {'b': Signature.parse_bytes, 'x': Signature.parse_hex, 'a': Signature.parse}[t[1]](a)
+            if not isinstance(s, Signature):
+                return 'ERR'
+            return '%d %d %d %s' % (s.r, s.s, s.hash_type, hx(s.as_der_encoded())) + obj_flags(s)
         except Exception:
             return 'ERR'
     if c == 'nonce':
